@@ -619,3 +619,41 @@ Proof.
   exists [false; true]. destruct f14_witness as [A [B [C D]]].
   split; [exact A|]. split; [exact B|]. rewrite C, D. discriminate.
 Qed.
+
+(* ------------------------------------------------------------------ a case that passes in a
+   generated file says: the observed Stack IS the model's result (and, where tc_iso is set, it
+   is isomorphic to Trio's own tables) *)
+Lemma leqb_eq {A} (eq : A -> A -> bool) a : forall b,
+  (forall x y, In x a -> eq x y = true -> x = y) -> leqb eq a b = true -> a = b.
+Proof.
+  induction a as [|x a IH]; destruct b as [|y b]; simpl; try discriminate; auto.
+  intros H E. apply andb_true_iff in E as [E1 E2]. f_equal; [apply H; auto | apply IH; auto].
+Qed.
+
+Lemma stack_eqb_eq a : forall b, stack_eqb a b = true -> a = b.
+Proof.
+  induction a as [r fs IH] using stack_ind'. intros [r' fs'] E.
+  cbn [stack_eqb] in E. apply andb_true_iff in E as [Er Ef].
+  assert (r = r') as ->.
+  { destruct r, r'; simpl in Er; try discriminate; apply Nat.eqb_eq in Er; subst; reflexivity. }
+  f_equal. rewrite Forall_forall in IH. revert Ef. apply leqb_eq.
+  intros [i h c] [i' h' c'] Hin E. specialize (IH _ Hin). simpl in IH.
+  apply andb_true_iff in E as [E1 Ec]. apply andb_true_iff in E1 as [Ei Eh].
+  apply Nat.eqb_eq in Ei. apply Bool.eqb_prop in Eh. subst. f_equal.
+  rewrite Forall_forall in IH. revert Ec. apply leqb_eq.
+  intros [o k] [o' k'] Hc E. specialize (IH _ Hc). simpl in IH.
+  apply andb_true_iff in E as [Eo Ek].
+  assert (o = o') as ->.
+  { destruct o, o'; simpl in Eo; try discriminate; apply Nat.eqb_eq in Eo; subst; reflexivity. }
+  f_equal. rewrite Forall_forall in IH. revert Ek. apply leqb_eq.
+  intros s s' Hs E. apply IH; auto.
+Qed.
+
+Lemma case_ok_sound k : case_ok k = true ->
+  tc_obs k = extract (tc_rc k) (tc_root k) /\
+  (tc_iso k = true -> iso (tlookup (tc_nurs k)) (tlookup (tc_kids k)) (tc_obs k)).
+Proof.
+  unfold case_ok. intros H. apply andb_true_iff in H as [H1 H2].
+  split; [symmetry; apply stack_eqb_eq; exact H1|].
+  intros E. rewrite E in H2. apply iso_b_sound. exact H2.
+Qed.
